@@ -549,6 +549,13 @@ func (qr *QRCode) EncodeToBitmap() (*bitmap.Image, error) {
 	if !qr.Level.IsValid() {
 		return nil, errors.New("qrcode: invalid level")
 	}
+	if qr.Version == 0 {
+		// there is no symbol to draw for the "auto" placeholder version.
+		return nil, errors.New("qrcode: invalid version")
+	}
+	if !qr.Mask.IsValid() {
+		return nil, errors.New("qrcode: invalid mask")
+	}
 
 	var buf bitstream.Buffer
 	if err := qr.encodeToBits(&buf); err != nil {
